@@ -86,10 +86,13 @@ Theorem well_locked_by_shape : forall (Lo V : Type) (p : list (step Lo V)),
 Proof. exact well_locked_by_shape_all. Qed.
 
 (* ======== the lock discipline of the code, on the lists extracted from /repo ===== *)
-(* SessionCache.__getitem__/__setitem__, VerifierDB(BaseDB).__getitem__/__setitem__/
-   __delitem__/__contains__/check/keys, Python_RSAKey._rawPrivateKeyOp: every access to an
-   attribute that any of these methods writes is inside the class's single lock, and each
-   method has at most one critical section. *)
+(* Every public/dunder instance method of SessionCache, VerifierDB(BaseDB) and Python_RSAKey(RSAKey)
+   -- discovered from the class bodies, see extracted_methods_complete -- and every path through it:
+   every access to an attribute that any of these methods writes is inside the class's single lock,
+   and each path has at most one critical section.  The only assignment outside a lock that is
+   tolerated is an idempotent initialisation (XInit with immutable dependencies: RSAKey.decrypt's
+   `self._key_hash = secureHash(d)`); anything else -- a memo, a cached buffer, a statistics counter --
+   is an XWrite and breaks this theorem; an attribute no __init__ creates makes the extractor refuse. *)
 Theorem extracted_lock_discipline : all_methods_ok all_methods = true.
 Proof. exact extracted_methods_ok. Qed.
 (* (Before commit d3942bb, "BaseDB.keys() must copy the key view while holding the lock", this was
@@ -110,11 +113,16 @@ Theorem extracted_writes_under_lock :
 Proof. exact extracted_writes_locked. Qed.
 
 Theorem extracted_methods_complete :
-  map (fun m : xmethod => let '(c, n, _) := m in (c, n)) all_methods =
+  map (fun e : string * string * list (list xstep) => let '(c, n, _) := e in (c, n)) all_method_paths =
   [("SessionCache", "__getitem__"); ("SessionCache", "__setitem__");
-   ("VerifierDB", "__getitem__"); ("VerifierDB", "__setitem__"); ("VerifierDB", "__delitem__");
+   ("VerifierDB", "__setitem__"); ("VerifierDB", "__getitem__"); ("VerifierDB", "__delitem__");
    ("VerifierDB", "__contains__"); ("VerifierDB", "check"); ("VerifierDB", "keys");
-   ("Python_RSAKey", "_rawPrivateKeyOp")]%string.
+   ("Python_RSAKey", "_rawPrivateKeyOp"); ("Python_RSAKey", "hasPrivateKey");
+   ("Python_RSAKey", "acceptsPassword"); ("Python_RSAKey", "__len__"); ("Python_RSAKey", "hashAndSign");
+   ("Python_RSAKey", "hashAndVerify"); ("Python_RSAKey", "MGF1"); ("Python_RSAKey", "EMSA_PSS_encode");
+   ("Python_RSAKey", "RSASSA_PSS_sign"); ("Python_RSAKey", "EMSA_PSS_verify");
+   ("Python_RSAKey", "RSASSA_PSS_verify"); ("Python_RSAKey", "sign"); ("Python_RSAKey", "verify");
+   ("Python_RSAKey", "encrypt"); ("Python_RSAKey", "decrypt")]%string.
 Proof. exact extracted_methods_present. Qed.
 
 (* ======== from steps to whole calls ============================================= *)
